@@ -463,3 +463,20 @@ impl Iterator for FragBitVecIterator {
 //     }
 //   }
 // }
+
+// Verification hooks (C02): read-only digest of the private repair state.
+#[cfg(rustdds_verif)]
+impl RtpsReaderProxy {
+  /// (unsent_changes, pending_gap, frags_requested as (sn, bits))
+  pub(crate) fn verif_c02_digest(&self) -> (Vec<i64>, Vec<i64>, Vec<(i64, Vec<bool>)>) {
+    (
+      self.unsent_changes.iter().map(|sn| i64::from(*sn)).collect(),
+      self.pending_gap.iter().map(|sn| i64::from(*sn)).collect(),
+      self
+        .frags_requested
+        .iter()
+        .map(|(sn, bv)| (i64::from(*sn), bv.iter().collect()))
+        .collect(),
+    )
+  }
+}
